@@ -133,28 +133,27 @@ NODE_IDS = ["a", "b", "c", "d", "e", "f", "g", "h", "ä", "n:1", "A"]
 RELS = ["supports", "associates", "contradicts", "weird"]
 
 
+_LABELS = st.one_of(st.sampled_from(VOCAB), st.sampled_from(VOCAB), st.just(""), st.sampled_from(["zzz", "Plum"]))
+_TAGS = st.lists(st.one_of(st.sampled_from(VOCAB), st.sampled_from(["", 3, None])), max_size=2)
+_WEIGHTS = st.one_of(st.sampled_from([1.0, 0.9, 0.5, 0.25, -0.5, -1.0, 0.0, 1e-7, 2.0, 1]),
+                     st.floats(min_value=-1.5, max_value=1.5, allow_nan=False))
+_RELS = st.sampled_from(RELS)
+
+
 @st.composite
 def graph_specs(draw, max_nodes: int = 8, max_edges: int = 14, ids: Optional[List[str]] = None):
     """A concept graph spec: {"nodes":[{"id","label","tags"}], "edges":[{"id","src","dst","w","rel"}]}.
     Cycles, self-loops, parallel edges (distinct ids, same endpoints), negative/zero weights, unknown rels."""
     ids = ids or NODE_IDS
-    n = draw(st.integers(0, max_nodes))
-    nids = draw(st.lists(st.sampled_from(ids), min_size=n, max_size=n, unique=True)) if n else []
-    nodes = []
-    for nid in nids:
-        label = draw(st.one_of(st.sampled_from(VOCAB), st.sampled_from(VOCAB), st.just(""), st.sampled_from(["zzz", "Plum"])))
-        tags = draw(st.lists(st.one_of(st.sampled_from(VOCAB), st.sampled_from(["", 3, None])), max_size=2))
-        nodes.append({"id": nid, "label": label, "tags": tags})
+    nids = draw(st.lists(st.sampled_from(ids), min_size=0, max_size=max_nodes, unique=True))
+    nodes = [{"id": nid, "label": draw(_LABELS), "tags": draw(_TAGS)} for nid in nids]
     edges = []
     if nids:
+        ends = st.sampled_from(nids)
+        dsts = st.sampled_from(nids + nids + ["ghost"])
         m = draw(st.integers(0, max_edges))
         for j in range(m):
-            src = draw(st.sampled_from(nids))
-            dst = draw(st.one_of(st.sampled_from(nids), st.sampled_from(nids), st.sampled_from(["ghost"])))
-            w = draw(st.one_of(st.sampled_from([1.0, 0.9, 0.5, 0.25, -0.5, -1.0, 0.0, 1e-7, 2.0, 1]),
-                               st.floats(min_value=-1.5, max_value=1.5, allow_nan=False)))
-            rel = draw(st.sampled_from(RELS))
-            edges.append({"id": f"e{j}", "src": src, "dst": dst, "w": w, "rel": rel})
+            edges.append({"id": f"e{j}", "src": draw(ends), "dst": draw(dsts), "w": draw(_WEIGHTS), "rel": draw(_RELS)})
     return {"nodes": nodes, "edges": edges}
 
 
